@@ -1128,10 +1128,16 @@ func (vm *VirtualMachine) cloneCallAsync(
 	// so halt the clone when the context is cancelled, as start() does for
 	// the VM that runs the main code
 	if doneChan := ctx.Done(); doneChan != nil {
+		verifGo(0)
 		go func() {
+			verifGo(1)
+			defer verifGo(2)
+			verifPoint(10, doneChan, clone)
 			<-doneChan
+			verifPoint(11, doneChan, clone)
 			atomic.StoreInt32(&clone.halt, 1)
 		}()
+		verifGo(3)
 	}
 	return object.NewThread(clone.initContext(ctx), fn, args), nil
 }
